@@ -5,7 +5,7 @@ Tr == ndJsonDeserialize(IOEnv.TRACE)
 VARIABLE l
 TraceInit == FInit /\ l = 1
 ResetState == /\ enabled' = FALSE /\ threaded' = FALSE /\ started' = FALSE /\ called' = 0 /\ size' = <<>> /\ backlog' = 0
-              /\ written' = <<>> /\ mayDrop' = {} /\ opt' = {} /\ lostRep' = 0 /\ cur' = 0 /\ fin' = FALSE
+              /\ written' = <<>> /\ mayDrop' = {} /\ mdu' = 0 /\ opt' = {} /\ lostRep' = 0 /\ cur' = 0 /\ fin' = FALSE
 TraceNext ==
   /\ l <= Len(Tr) /\ l' = l + 1
   /\ LET ev == Tr[l] IN
